@@ -35,6 +35,12 @@ CHECKS.update({
  "C10": ("3/C10", "The complete tree of learn/refresh/re-case/withdraw histories (depth 2, thorough 3) x gap menu around 0/1 s/20 s/40 s and 75/85/95/100 % of the TTLs x browser delay 1/10/60 s x forced question types, each run to expiry of every record on a real AsyncServiceBrowser; query-trace oracle for start-up schedule, refresh windows, rate limit, unexplained queries, liveness and armed timer.",
          "Trusted: window tolerances listed in the evidence assumptions (one delay early, accumulated lateness)."),
 })
+CHECKS.update({
+ "C11": ("3/C11", "Full product grid (16 question mixes QU/QM x probe x id x source port x v4/v6 source x 14 ages of the host's last multicast around a quarter of 60/120/300/4500 s TTLs x single/dual sockets) on a real instance; routing and format rules judged per answer record on the decoded trace.",
+         "Trusted: virtual link socket model (multicast queries arrive on the listen socket, legacy unicast on the respond socket); equality with ttl/4 accepts both outcomes."),
+ "C12": ("3/C12", "Full product per family on a real instance: single queries x all 101 jitter values x sighting ages 999/1000/1001/5000 ms; all 2-query (thorough: 3-query) schedules over the gap grid around 0/20/120/500/1000/1120/1200 ms x jitter per draw; TC trains of 1-4 packets x continuation gaps around 400/500 ms incl. the timer instant x 1/2 sources; per-record timing envelope on the trace.",
+         "Trusted: the envelope definitions in the evidence assumptions; one open known finding (duplicate guard hides a sighting) is reported as KNOWN-FINDING."),
+})
 NOT_YET = {}
 
 def main():
